@@ -10,7 +10,7 @@ from __future__ import annotations
 from datetime import timedelta
 
 from hxv import boot
-from hxv.core import EPOCH, rows_to_candles, short, ts_of
+from hxv.core import EPOCH, row_to_candle, rows_to_candles, short, ts_of
 from hxv.drive import encode_chunk
 from hxv.gen import schedules, streams
 from hxv.gen.timeframes import pick_timeframe
@@ -57,6 +57,12 @@ def gen_case(rng, tier, idx, fill=False):
                              max_gap_buckets=12 if fill else 60)
     if rng.random() < 0.08:
         streams.add_subsecond(rng, rows)  # bucketing is at second resolution: sub-second parts must simply be dropped, for every candle alike
+    aware = None
+    if rng.random() < 0.06:
+        # timezone-aware timestamps (one fixed offset per stream): buckets live on that offset's own wall clock
+        aware = rng.choice(["+00:00", "+05:30", "-03:00", "+05:45", "+01:00"])
+        for r in rows:
+            r[0] = r[0] + aware
     long_gap = False
     if fill and len(rows) >= 16 and rng.random() < 0.03:
         # one very long gap (more than a thousand buckets) in a short stream: still cheap, and contiguity must hold across it
@@ -77,7 +83,7 @@ def gen_case(rng, tier, idx, fill=False):
         lifespan = tf_s * rng.randint(8, 20) + rng.choice([0, 1, tf_s // 2])
         entry = rng.choice(["manager", "indicator", "hexital_level"])  # (member timeframes + lifespan at construction: recorded C08 finding)
     return {"rows": rows, "tf": tf, "entry": entry, "lifespan_s": lifespan,
-            "schedule": sch, "extra_passes": rng.choice([0, 0, 0, 1, 2, 3]), "ts_mode": mode if not long_gap else "long_gap", "fill": fill, "tf_enum": rng.random() < 0.25}
+            "schedule": sch, "extra_passes": rng.choice([0, 0, 0, 1, 2, 3]), "ts_mode": mode if not long_gap else "long_gap", "fill": fill, "tf_enum": rng.random() < 0.25, "aware": aware}
 
 
 def coarser(tf):
@@ -138,7 +144,7 @@ def got_rows(candles):
 def structural(got, s):
     """Invariants that must hold whatever the reference says."""
     for i, r in enumerate(got):
-        d = r[0] - EPOCH
+        d = r[0] - (EPOCH if r[0].tzinfo is None else EPOCH.replace(tzinfo=r[0].tzinfo))
         if (d.days * 86400 + d.seconds) % s or d.microseconds:
             return "label-off-grid", i
         if i and not got[i - 1][0] < r[0]:
@@ -169,6 +175,8 @@ def run_case(case):
     s = tf_seconds(tf)
     drows = [(ts_of(r[0]), *r[1:]) for r in rows]
     stats = {"entries_seen": [entry], "ts_modes": [case["ts_mode"]], "tf_units": [tf[0].upper()]}
+    if case.get("aware"):
+        stats["tz_aware_streams"] = 1
     viol = []
     prop = "C12" if fill else "C03"
 
@@ -244,6 +252,25 @@ def run_case(case):
                     break
     except Exception as e:
         viol.append({"monitor": "exception", "sig": f"{prop}|raises|{entry}|{type(e).__name__}", "detail": f"{e!r}"[:600]})
+    if case.get("aware") and not viol:
+        # the same instants expressed in another offset, collapsed in the same process: each stream lives on its own wall clock
+        from datetime import timedelta as _td, timezone as _tz
+        for off in (0, 330, -180, 345):
+            tz2 = _tz(_td(minutes=off))
+            d2 = [(r[0].astimezone(tz2), *r[1:]) for r in drows]
+            try:
+                m2 = CandleManager([row_to_candle(r) for r in d2], timeframe=tf, timeframe_fill=fill)
+                g2 = got_rows(m2.candles)
+            except Exception as e:
+                viol.append({"monitor": "exception", "sig": f"{prop}|raises|aware-twin|{type(e).__name__}", "detail": f"same instants at UTC offset {off} min: {e!r}"[:400]})
+                break
+            w2 = resample(d2, tf, fill)
+            stats["aware_twin_streams"] = stats.get("aware_twin_streams", 0) + 1
+            dd = compare(g2, w2)
+            if dd:
+                viol.append({"monitor": "online-resample-reference", "sig": f"{prop}|{dd[0]}|aware-twin",
+                             "detail": f"same instants re-expressed at UTC offset {off} min, tf {tf}: {dd[0]} at bucket {dd[1]}: got {short(g2[max(0, dd[1] - 1):dd[1] + 2], 300)} want {short(w2[max(0, dd[1] - 1):dd[1] + 2], 300)}"})
+                break
     want = resample(drows, tf, False)
     nontrivial = len(want) >= 2 and len(want) < len(rows)
     if fill:
